@@ -79,13 +79,9 @@ theorem br_set_self (r : Repo) (ar : Arena) (pb : Nat) (b : Branch) (hlt : pb < 
     (ar[pb]?.getD default) = b := by
   rw [ha, List.getElem?_set_self hlt]; rfl
 
-/-- **one submission keeps the forest well linked** (automatic clean not due). -/
-theorem forestOK_processHeader (r : Repo) (h : Hdr) (ok : Bool) (hf : ForestOK r)
-    (hnc : ∀ pb ph lst, precheck r h ok = .inr (pb, ph, lst) →
-      Int.tmod ((r.br pb).height + 1) (Facts.autoCleanModulus : Int) ≠ 0) :
-    ForestOK (processHeader r h ok).1 := by
-  have hshape := processHeader_shape r h ok hnc
-  generalize (processHeader r h ok).1 = r' at hshape
+/-- a state of one of the three shapes a submission can produce is well linked again. -/
+theorem forestOK_of_shape (r : Repo) (h : Hdr) (ok : Bool) (hf : ForestOK r) (r' : Repo) (hshape : Shape r h ok r') :
+    ForestOK r' := by
   cases hshape with
   | same ha hb hh =>
     refine ⟨?_, by rw [ha, hb]; exact hf.linked, by rw [ha, hb]; exact hf.valid, by rw [ha, hb]; exact hf.len⟩
@@ -192,6 +188,13 @@ theorem forestOK_processHeader (r : Repo) (h : Hdr) (ok : Bool) (hf : ForestOK r
       rw [hb] at hbi
       rw [ha, List.length_set]; exact hf.valid bi hbi
     · rw [ha, hb, List.length_set]; exact hf.len
+
+/-- **one submission keeps the forest well linked** (automatic clean not due). -/
+theorem forestOK_processHeader (r : Repo) (h : Hdr) (ok : Bool) (hf : ForestOK r)
+    (hnc : ∀ pb ph lst, precheck r h ok = .inr (pb, ph, lst) →
+      Int.tmod ((r.br pb).height + 1) (Facts.autoCleanModulus : Int) ≠ 0) :
+    ForestOK (processHeader r h ok).1 :=
+  forestOK_of_shape r h ok hf _ (processHeader_shape r h ok hnc)
 
 /-- every history of submissions from a well-linked state stays well linked. -/
 theorem forestOK_submitAll (hs : List (Hdr × Bool)) : ∀ (r : Repo), ForestOK r → NoAutoClean r hs → ForestOK (submitAll r hs) := by
